@@ -167,12 +167,12 @@ theorem eraseN_le (files : Files) {J J' : RJ}
         simp only [loadT_erase]
         cases loadT .inlineM files name cls st with
         | fuel => exact .inl rfl
-        | ok p => obtain ⟨body, st1⟩ := p; exact hJ .full body st1
+        | ok p => obtain ⟨body, st1⟩ := p; exact hJ _ body st1
         | err e =>
           cases e with
           | notFound =>
             cases hasFb with
-            | true => exact eraseL_le files hJ hJ2 fb .full st
+            | true => exact eraseL_le files hJ hJ2 fb rng.fresh st
             | false => exact .inr rfl
           | syntaxErr => exact .inr rfl
           | undefined => exact .inr rfl
@@ -318,12 +318,12 @@ theorem eraseN_up (files : Files) {J' : RJ}
         simp only [loadT_erase]
         cases loadT .inlineM files name cls st with
         | fuel => exact .inl rfl
-        | ok p => obtain ⟨body, st1⟩ := p; exact hJ .full body st1
+        | ok p => obtain ⟨body, st1⟩ := p; exact hJ _ body st1
         | err e =>
           cases e with
           | notFound =>
             cases hasFb with
-            | true => exact eraseL_up files hJ fb .full st
+            | true => exact eraseL_up files hJ fb rng.fresh st
             | false => exact Up.const rfl
           | syntaxErr => exact Up.const rfl
           | undefined => exact Up.const rfl
